@@ -204,6 +204,42 @@ pub fn c15_eq_distinct_rust() {
     std::mem::forget(b);
 }
 
+/// `a == b` (Rust API) on two distinct lists of 0..=2 elements each, lengths and elements symbolic: true exactly when
+/// the lengths agree and the elements agree pairwise - in particular false when one list is a proper prefix of the
+/// other, in either direction.
+#[cfg_attr(kani, kani::proof)]
+#[cfg_attr(kani, kani::stub(std::sync::Mutex::lock, crate::stubs::mutex_lock_stub))]
+#[cfg_attr(kani, kani::unwind(5))]
+pub fn c15_eq_rust_lengths() {
+    let a: List<u8> = List::new();
+    let b: List<u8> = List::new();
+    let xs: [u8; 2] = any();
+    let ys: [u8; 2] = any();
+    let na: usize = any();
+    let nb: usize = any();
+    assume(na <= 2 && nb <= 2);
+    if na >= 1 {
+        a.push(xs[0]);
+    }
+    if na >= 2 {
+        a.push(xs[1]);
+    }
+    if nb >= 1 {
+        b.push(ys[0]);
+    }
+    if nb >= 2 {
+        b.push(ys[1]);
+    }
+    let r = a == b;
+    let want = na == nb && (na < 1 || xs[0] == ys[0]) && (na < 2 || xs[1] == ys[1]);
+    assert!(r == want, "== on distinct lists gives the wrong answer");
+    cover!(r && na == 2, "equal_two_elements");
+    cover!(!r && na < nb && (na < 1 || xs[0] == ys[0]), "proper_prefix_is_not_equal");
+    cover!(!r && nb < na && (nb < 1 || xs[0] == ys[0]), "proper_extension_is_not_equal");
+    std::mem::forget(a);
+    std::mem::forget(b);
+}
+
 /// same list through two handles: equal without locking twice
 #[cfg_attr(kani, kani::proof)]
 #[cfg_attr(kani, kani::stub(std::sync::Mutex::lock, crate::stubs::mutex_lock_stub))]
@@ -336,6 +372,7 @@ pub fn c15_concat_growth_big() {
 }
 
 crate::list![
+    c15_eq_rust_lengths,
     c15_concat_distinct,
     c15_concat_growth_big,
     c15_compute_capacity,
